@@ -174,6 +174,17 @@ extern "C" void harness_main() {
   f.Emplace(CstType::term, genInitialDefinition("init-def1"));
   f.Emplace(CstType::term, genInitialDefinition("init-def2"));
   if (sym_bool("with-term-ref")) f.SetTermFor(listOf(f)[1], "@{D2|nomn}");
+#elif INIT == 2
+  // a reference chain that crosses from terms into text definitions: D1 has a term, the term of D2 mentions D1, the text
+  // definition of D3 mentions D2 only, the term of X1 mentions D2
+  f.Emplace(CstType::term, "X1");
+  f.Emplace(CstType::term, "D1");
+  f.Emplace(CstType::term, "D2\xE2\x88\xAAX1");
+  { const auto l = listOf(f);
+    f.SetTermFor(l[1], "first");
+    f.SetTermFor(l[2], "second @{D1|nomn}");
+    f.SetDefinitionFor(l[3], "uses @{D2|nomn}");
+    f.SetDefinitionFor(l[0], "base of @{D2|plur}"); }
 #else
   f.Emplace(CstType::term, "X1");
   f.Emplace(CstType::term, "D1");
